@@ -132,3 +132,52 @@ func VerifC09History() {
 		}
 	}
 }
+
+// VerifC09CloseRace: a host registered on connection 1 reconnects on
+// connection 2 while the pool is cleaning up after the end of connection 1
+// (and, optionally, a second host lives on connection 1 as well): whatever
+// the interleaving, afterwards the host is registered on the open connection
+// 2, counted once, and a later peer request instructs it there and nowhere else.
+func VerifC09CloseRace() {
+	db := newVerifStore()
+	p := New(db, nil)
+	now := verifapi.Time("now")
+	verifapi.SetNow(now)
+	hid := verifapi.NodeID(1)
+	conn1 := &VerifHost{Name: "s1", Addr: "192.0.2.1:1", Behaviours: 1}
+	conn2 := &VerifHost{Name: "s2", Addr: "192.0.2.2:1", Behaviours: 1}
+	if _, err := VerifConnect(p, conn1, hid, true, ""); err != nil {
+		verifapi.Unreachable("c09.host-connect-error")
+		return
+	}
+	other := verifapi.Bool("second-host-on-connection-1")
+	if other {
+		if _, err := VerifConnect(p, conn1, verifapi.NodeID(2), true, ""); err != nil {
+			verifapi.Unreachable("c09.host-connect-error")
+			return
+		}
+	}
+	done := make(chan error, 2)
+	go func() { done <- p.CloseRemote(conn1) }()
+	go func() {
+		_, err := VerifConnect(p, conn2, hid, true, "")
+		done <- err
+	}()
+	e1, e2 := <-done, <-done
+	verifapi.Reach("c09.closerace")
+	verifapi.Assert(e1 == nil && e2 == nil, "c09.closerace.both-calls-succeed")
+	p.mu.Lock()
+	reg, ok := p.remoteHosts[store.NodeID(hid)]
+	_, stale := p.remoteHosts[store.NodeID(verifapi.NodeID(2))]
+	p.mu.Unlock()
+	verifapi.Assert(ok && reg == conn2, "c09.live-latest-connection-is-registered")
+	verifapi.Assert(!stale, "c09.closed-connection-not-registered")
+	verifapi.Assert(p.NumRemotes() == 1, "c09.numremotes-counts-live-hosts")
+	client := verifapi.NodeID(0)
+	db.SetNode(store.Node{ID: store.NodeID(client), LastSeen: now})
+	req := PeerRequest{Num: 2}
+	nonce := VerifFreshNonce()
+	p.Peer(context.Background(), sigs.SignFor(client, "vipnode_peer", nonce, req), client, nonce, req)
+	verifapi.Assert(len(conn1.Calls) == 0, "c09.closed-connection-never-called")
+	verifapi.Assert(len(conn2.Calls) == 1, "c09.whitelist-goes-to-latest-live-connection")
+}
